@@ -138,8 +138,8 @@ def r2(ctx: Ctx) -> None:
            "a rolled-back file is deleted by its own transaction before its protection disappears")
 
 
-def r3(ctx: Ctx) -> None:
-    ctx.rule("C06.R3", "collector read order: the in-flight marker read dominates the metadata read", 1)
+def r3(ctx: Ctx, rid: str = "C06.R3") -> None:
+    ctx.rule(rid, "collector read order: the in-flight marker read dominates the metadata read", 1)
     col = ctx.fn(GC + ".collect")
     g = ctx.cfg(col)
     dom = ctx.dom(col, NORMAL)
@@ -151,7 +151,7 @@ def r3(ctx: Ctx) -> None:
         raise AnalysisError("marker load / metadata refresh calls not found in collect")
     r0 = refr[0]
     ok = any(p.id in dom[r0.id] for p in prot)
-    ctx.ob("C06.R3", col, "marker read precedes the metadata read", r0, ok,
+    ctx.ob(rid, col, "marker read precedes the metadata read", r0, ok,
            "markers are removed only AFTER a commit's pointer flip, so reading markers first guarantees: marker gone => "
            "the later metadata read sees that commit. Reading metadata first leaves a window in which a commit lands and "
            "drops its markers between the two reads; its (old enough) files are then neither reachable nor protected.",
